@@ -482,6 +482,76 @@ func addTxIndexUpdatesAtomic(fd *ast.FuncDecl) bool {
 	return iUn > iHash && iUn > iList
 }
 
+// evictionRemovalsLocked: in evictLeastLikelyToSelectTransactions every statement of the pass loop that removes from the senders'
+// lists (removeTransactionsWithHigherOrEqualNonce) or from the hash index (RemoveTxsBulk) lies between a top-level
+// `cache.mutTxOperation.Lock()` and the following `cache.mutTxOperation.Unlock()` of the loop body (F13)
+func evictionRemovalsLocked(fd *ast.FuncDecl) bool {
+	if fd == nil {
+		return false
+	}
+	found := false
+	ok := true
+	ast.Inspect(fd.Body, func(n ast.Node) bool {
+		fs, isFor := n.(*ast.ForStmt)
+		if !isFor {
+			return true
+		}
+		b := fs.Body
+		removes := func(s ast.Stmt) bool {
+			return containsCall(s, "txListBySender", "removeTransactionsWithHigherOrEqualNonce") || containsCall(s, "txByHash", "RemoveTxsBulk")
+		}
+		first := topIndex(b, 0, removes)
+		if first < 0 {
+			return true // not the pass loop (or an inner loop)
+		}
+		found = true
+		iLock := topIndex(b, 0, func(s ast.Stmt) bool { return isCall(s, "cache", "mutTxOperation", "Lock") })
+		if iLock < 0 || iLock > first {
+			ok = false
+			return false
+		}
+		iUn := topIndex(b, iLock+1, func(s ast.Stmt) bool { return isCall(s, "cache", "mutTxOperation", "Unlock") })
+		if iUn < 0 {
+			ok = false
+			return false
+		}
+		for i := 0; i < len(b.List); i++ {
+			if removes(b.List[i]) && (i < iLock || i > iUn) {
+				ok = false
+			}
+		}
+		// nothing between Lock and Unlock may leave the loop body early (the lock would stay held)
+		for i := iLock + 1; i < iUn; i++ {
+			ast.Inspect(b.List[i], func(m ast.Node) bool {
+				switch x := m.(type) {
+				case *ast.ReturnStmt:
+					ok = false
+				case *ast.BranchStmt:
+					if x.Tok == token.BREAK || x.Tok == token.GOTO {
+						// a `break` of an inner loop is fine only when it is inside a for/range nested in this statement
+						inner := false
+						ast.Inspect(b.List[i], func(q ast.Node) bool {
+							switch q.(type) {
+							case *ast.ForStmt, *ast.RangeStmt:
+								if q.Pos() <= x.Pos() && x.End() <= q.End() {
+									inner = true
+								}
+							}
+							return true
+						})
+						if !inner {
+							ok = false
+						}
+					}
+				}
+				return true
+			})
+		}
+		return false
+	})
+	return found && ok
+}
+
 // callsNamed: all call expressions in n whose selector (or function) name is one of names
 func callsNamed(n ast.Node, names ...string) []*ast.CallExpr {
 	var out []*ast.CallExpr
@@ -637,6 +707,7 @@ func moreSections(repo string) string {
 		val  bool
 	}{
 		{"addTxIndexUpdatesAtomic", "TxCache.AddTx updates the hash index and the sender list inside ONE mutTxOperation critical section", addTxIndexUpdatesAtomic(tx.funcs["TxCache.AddTx"])},
+		{"evictionRemovalsUnderTxOperationLock", "eviction removes from the senders' lists and from the hash index inside a mutTxOperation critical section (it cannot interleave with AddTx / RemoveTxByHash)", evictionRemovalsLocked(tx.funcs["TxCache.evictLeastLikelyToSelectTransactions"])},
 		{"hashIndexCountersPaired", "txByHashMap.addTx / removeTx update CountTx and NumBytes iff the chunk-locked map operation (SetIfAbsent / Remove) reported a change, with no lookup before it",
 			countersPaired(tx.funcs["txByHashMap.addTx"], "SetIfAbsent", []string{"Increment", "Add"}, []string{"getTx", "Get", "Has"}) &&
 				countersPaired(tx.funcs["txByHashMap.removeTx"], "Remove", []string{"Decrement", "Subtract"}, []string{"getTx", "Get", "Has"})},
